@@ -67,4 +67,31 @@ pub mod oidtext_spec {
             assert(groups(v) =~= seq![(v / 268435456) as u8, (v / 2097152 % 128) as u8, (v / 16384 % 128) as u8, (v / 128 % 128) as u8, (v % 128) as u8]);
         }
     }
+
+    // ---- BER -> dotted text (X.690 §8.19: sub-identifiers are base-128 big-endian groups, bit 8 set on all but the last
+    // octet of a group; the first sub-identifier is 40*X + Y with X in 0..2). Reading the contents octets left to right:
+    pub struct PrintState {
+        pub text: Seq<char>,   // text emitted so far
+        pub pending: nat,      // value of the sub-identifier being read
+        pub started: bool,     // the first sub-identifier (two arcs) has been emitted
+        pub fits: bool,        // no sub-identifier so far exceeded 2^32 - 1 (the property speaks of arcs <= 2^32-1 only)
+    }
+    pub open spec fn print_state(s: Seq<u8>) -> PrintState
+        decreases s.len()
+    {
+        if s.len() == 0 { PrintState { text: Seq::<char>::empty(), pending: 0, started: false, fits: true } }
+        else {
+            let p = print_state(s.drop_last());
+            let v = p.pending * 128 + (s.last() % 128) as nat;
+            let fits = p.fits && v <= 0xffff_ffff;
+            if s.last() >= 128 { PrintState { text: p.text, pending: v, started: p.started, fits } }
+            else if !p.started {
+                let x: nat = if v / 40 > 2 { 2 } else { v / 40 };
+                PrintState { text: p.text + crate::shim::dec(x) + seq!['.'] + crate::shim::dec((v - 40 * x) as nat), pending: 0, started: true, fits }
+            } else {
+                PrintState { text: p.text + seq!['.'] + crate::shim::dec(v), pending: 0, started: true, fits }
+            }
+        }
+    }
+    pub open spec fn oid_text(c: Seq<u8>) -> Seq<char> { print_state(c).text }
 }
